@@ -95,12 +95,28 @@ def main():
         sys.stdout.write(coq_out[-2000:])
         print('BROKEN-CHECK: a theorem of props/%s.v is not closed under the global context' % a.prop)
         sys.exit(2)
-    if a.replay:
-        with open(a.replay) as f:
-            rp = json.load(f)
-        props.replay(ctx, rp)
-    else:
-        props.CHECKS[a.prop](ctx)
+    try:
+        if a.replay:
+            with open(a.replay) as f:
+                rp = json.load(f)
+            props.replay(ctx, rp)
+        else:
+            props.CHECKS[a.prop](ctx)
+    except Exception as e:  # noqa
+        import traceback
+        tb = traceback.extract_tb(e.__traceback__)
+        in_impl = [fr for fr in tb if os.path.realpath(fr.filename).startswith(os.path.realpath('/repo') + os.sep)]
+        text = ''.join(traceback.format_exception(type(e), e, e.__traceback__))
+        if in_impl:
+            # the implementation raised where the check relies on documented behaviour: that is a finding, with the
+            # traceback as replay; no concrete property-level failing input was isolated
+            ctx.violation('the implementation raised %s (%s:%d) during the exploration of %s' %
+                          (type(e).__name__, os.path.basename(in_impl[-1].filename), in_impl[-1].lineno, a.prop),
+                          {'traceback': text[-4000:], 'layer': 'implementation exception'}, no_input=True)
+        else:
+            sys.stdout.write(text[-3000:])
+            print('BROKEN-CHECK: the harness itself failed')
+            sys.exit(2)
     wall = time.time() - t0
     cov = {
         'obligations': len(names), 'discharged': len(status),
